@@ -240,9 +240,9 @@ class Check:
                      % (module, res["error"], tail(res["out"], 40)))
 
     # ---------------------------------------------------------------- replay
-    def replay(self, comp, emitted, variant="", extra=None, timeout=1800, label=None):
+    def replay(self, comp, emitted, variant="", extra=None, timeout=1800, label=None, workers=None):
         out = os.path.join(self.scratch, "replay-%s-%s-%d.json" % (comp, variant or "default", len(self.tlc_runs) + self.behaviours_replayed))
-        args = ["replay", comp, "-in", emitted, "-out", out, "-workers", NCPU]
+        args = ["replay", comp, "-in", emitted, "-out", out, "-workers", workers or NCPU]
         if variant:
             args += ["-variant", variant]
         for k, v in (extra or {}).items():
@@ -252,11 +252,12 @@ class Check:
         self.behaviours_replayed += r["distinct"]
         self.steps_replayed += r["steps"]
         self.drift += r.get("n_drift", 0)
+        self.inconclusive = getattr(self, "inconclusive", 0) + r.get("n_inconclusive", 0)
         if r.get("samples") and len(self.samples) < 6:
             self.samples.append({"kind": "behaviour replayed on the real code (%s%s)" % (comp, "/" + variant if variant else ""),
                                  "steps": r["samples"][len(r["samples"]) // 2]})
         for f in r.get("failures") or []:
-            if f.get("kind") == "drift":
+            if f.get("kind") in ("drift", "inconclusive"):
                 continue
             self.report_failure(f["sig"], {"component": comp, "variant": variant, "step": f.get("step"),
                                            "got": f.get("got"), "want": f.get("want"),
@@ -299,6 +300,7 @@ class Check:
             "exhaustive": bool(self.exhaustive),
             "tlc_runs": self.tlc_runs[:60],
             "model_drift_warnings": self.drift,
+            "inconclusive_not_judged": getattr(self, "inconclusive", 0),
         }
         if self.selftest is not None:
             cov["selftest"] = self.selftest
